@@ -512,6 +512,16 @@ def engine_selftests(meta, tier, seed):
         out["string_models_pinned"]["failures"] = len(r2["failures"])
         for f in r2["failures"][:5]:
             errors.append("engine self-test: string model disagrees with CPython: %s" % json.dumps(f, default=str))
+        if tier == "thorough":
+            # the repository's own test-suite with every productmd function body executed by the interpreter
+            env = dict(os.environ)
+            env["PYTHONPATH"] = REPO
+            env["PSX_REPO"] = REPO
+            p = subprocess.run([sys.executable, os.path.join(HERE, "psx", "tests_under_interp.py")], capture_output=True, text=True, env=env, timeout=900)
+            tail = [l for l in (p.stdout or "").strip().splitlines() if l.strip()][-2:]
+            out["repository_tests_under_interpreter"] = {"exit": p.returncode, "summary": tail}
+            if p.returncode != 0:
+                errors.append("engine self-test: the repository's test-suite does not pass under the interpreter: %s" % tail)
         if meta.get("fp_lemma"):
             r3 = selftest.lemma_int_float_roundtrip()
             out["lemma_int_float_roundtrip"] = r3
